@@ -18,6 +18,7 @@ import (
 
 	"github.com/pingcap/kvproto/pkg/pdpb"
 	"github.com/tikv/pd/pkg/tsoutil"
+	"github.com/tikv/pd/pkg/typeutil"
 	"github.com/tikv/pd/pkg/verifshim/sched"
 	"github.com/tikv/pd/pkg/verifshim/vclock"
 	"github.com/tikv/pd/server/config"
@@ -208,6 +209,9 @@ func (w *world) electAllocator(id int, dc string) error {
 func (w *world) electAllocatorUnobserved(id int, dc string) error {
 	old := sched.SetMember(id)
 	defer sched.SetMember(old)
+	if sched.Cur() == nil { // set-up (not a harness thread): the member's clock all the same
+		defer vclock.SetDefaultMember(vclock.SetDefaultMember(id))
+	}
 	err := w.srvs[id].GetTSOAllocatorManager().VerifBecomeAllocatorLeader(w.ctx, dc)
 	if err == nil {
 		w.allocLeader[dc] = id
@@ -241,6 +245,17 @@ func (w *world) request(id int, dc string, count uint32) {
 	} else {
 		g.phys, g.logical, g.bits = ts.Physical, ts.Logical, ts.SuffixBits
 		g.ts = tsoutil.ComposeTS(ts.Physical, ts.Logical)
+		// the granted physical time lies below the window that is stored for that allocator
+		key := srvh.Root + "/timestamp"
+		if dc != tso.GlobalDCLocation {
+			key = srvh.Root + "/" + dc + "/timestamp"
+		}
+		if v, ok := w.st.Get(key); ok {
+			if t, err := typeutil.ParseTimestamp([]byte(v)); err == nil && ts.Physical*int64(time.Millisecond) >= t.UnixNano() && w.badKey == "" {
+				w.bad = append(w.bad, fmt.Sprintf("%s granted physical %d ms while the stored window bound of %s is %d ms", g.String(), ts.Physical, key, t.UnixNano()/int64(time.Millisecond)))
+				w.badKey = "grant-not-below-stored"
+			}
+		}
 	}
 	w.grants = append(w.grants, g)
 }
@@ -377,6 +392,8 @@ type scen struct {
 	zones map[int]string
 	alloc map[string]int // dc -> server that leads its allocator
 	pre   int
+	dev   int // > 0: storage writes may fail, at most dev of them
+	offsets map[int]time.Duration // clock offsets of the servers, in force from the start
 	tiers string
 	build func(w *world) ([]string, []func())
 }
@@ -386,7 +403,7 @@ func scenario(sc scen) *explore.Scenario {
 	if sc.fine {
 		kinds |= 1 << sched.KRLock
 	}
-	return &explore.Scenario{Name: sc.name, MaxPre: sc.pre, Tiers: sc.tiers,
+	return &explore.Scenario{Name: sc.name, MaxPre: sc.pre, MaxDev: sc.dev, Tiers: sc.tiers,
 		Opts: sched.Options{Kinds: kinds, Delay: true},
 		Setup: func() *explore.Instance {
 			if sc.retries > 0 {
@@ -395,6 +412,9 @@ func scenario(sc scen) *explore.Scenario {
 				tso.VerifSetMaxRetryCount(10)
 			}
 			w := newWorld(sc.zones)
+			for id, off := range sc.offsets {
+				vclock.SetOffset(id, off)
+			}
 			var dcs []string
 			for dc := range sc.alloc {
 				dcs = append(dcs, dc)
@@ -406,6 +426,7 @@ func scenario(sc scen) *explore.Scenario {
 				}
 			}
 			names, th := sc.build(w)
+			w.st.FaultWrites = sc.dev > 0
 			return &explore.Instance{Names: names, Threads: th, Check: w.check}
 		}}
 }
@@ -542,6 +563,16 @@ func main() {
 	three3 := map[int]string{1: "dc1", 2: "dc2", 3: "dc3"}
 	l = append(l, scenario(scen{name: "3dc/fourth-joins/followers-look-first", zones: three3, alloc: map[string]int{"dc1": 1, "dc2": 2, "dc3": 3}, pre: 1, tiers: "quick", build: fourth}))
 	l = append(l, scenario(scen{name: "3dc/fourth-joins/followers-look-first@3", zones: three3, alloc: map[string]int{"dc1": 1, "dc2": 2, "dc3": 3}, pre: 3, tiers: "thorough", build: fourth}))
+	// dc2's clock (and so its local TSO) is 5 s ahead: a global timestamp has to move the global
+	// allocator's window, and that save may fail
+	ahead := func(w *world) ([]string, []func()) {
+		return []string{"dc2+global", "local1"}, []func(){
+			func() { w.update(2, 0); w.request(2, "dc2", 1); w.request(1, G, 1); w.request(1, G, 1) },
+			func() { w.request(1, "dc1", 1) },
+		}
+	}
+	l = append(l, scenario(scen{name: "2dc/local-ahead-of-global-window/storage-faults", zones: two, alloc: map[string]int{"dc1": 1, "dc2": 2}, pre: 1, dev: 1, tiers: "quick", build: ahead, offsets: map[int]time.Duration{2: 5 * time.Second}}))
+	l = append(l, scenario(scen{name: "2dc/local-ahead-of-global-window/storage-faults@3", zones: two, alloc: map[string]int{"dc1": 1, "dc2": 2}, pre: 3, dev: 2, tiers: "thorough", build: ahead, offsets: map[int]time.Duration{2: 5 * time.Second}}))
 	// two members want the same allocator leadership: dc2's allocator is led by server 2 and
 	// server 1 campaigns for it as well (its view of the leadership is late)
 	contend := func(w *world) ([]string, []func()) {
